@@ -488,7 +488,8 @@ func keepsCtype(v, x ssa.Value, depth int) bool {
 			return false
 		}
 		nm := cal.Name()
-		if !(namedName(rt) == recvT || nm == "AsGeometry" || strings.HasPrefix(nm, "MustAs") || strings.HasPrefix(nm, "As")) {
+		partAccessor := map[string]bool{"ExteriorRing": true, "InteriorRingN": true, "StartPoint": true, "EndPoint": true, "PointN": true, "LineStringN": true, "PolygonN": true, "GeometryN": true}[nm]
+		if !(namedName(rt) == recvT || nm == "AsGeometry" || strings.HasPrefix(nm, "MustAs") || strings.HasPrefix(nm, "As") || partAccessor) {
 			return false
 		}
 		return keepsCtype(y.Call.Args[0], x, depth+1)
@@ -514,12 +515,46 @@ func keepsCtype(v, x ssa.Value, depth int) bool {
 
 func runC16XYOnly(c *Ctx) {
 	n := 0
+	isOp := func(name string) bool {
+		return name == "convexHull" || name == "ConvexHull" || name == "Centroid" || name == "PointOnSurface"
+	}
+	// helpers of the XY-only operations: unexported functions they call (two
+	// levels deep) that take a geometry and return one
+	helper := map[*ssa.Function]bool{}
+	var frontier []*ssa.Function
+	for _, f := range c.P.Funcs {
+		if pkgOf(f) == "geom" && f.Parent() == nil && isOp(f.Name()) {
+			frontier = append(frontier, f)
+		}
+	}
+	for depth := 0; depth < 2; depth++ {
+		var next []*ssa.Function
+		for _, f := range frontier {
+			for _, g := range append([]*ssa.Function{f}, allAnon(f)...) {
+				eachCall(g, func(ci ssa.CallInstruction) {
+					cal := staticCallee(ci)
+					if cal == nil || pkgOf(cal) != "geom" || cal.Parent() != nil || cal.Blocks == nil || token.IsExported(cal.Name()) || isOp(cal.Name()) || helper[cal] {
+						return
+					}
+					if len(cal.Params) == 0 || !geomTypeNames[namedName(cal.Params[0].Type())] {
+						return
+					}
+					if rt := resultType0(cal); rt == nil || !geomTypeNames[namedName(rt)] {
+						return
+					}
+					helper[cal] = true
+					next = append(next, cal)
+				})
+			}
+		}
+		frontier = next
+	}
 	for _, f := range c.P.Funcs {
 		if pkgOf(f) != "geom" || f.Parent() != nil {
 			continue
 		}
 		name := f.Name()
-		if !(name == "convexHull" || name == "ConvexHull" || name == "Centroid" || name == "PointOnSurface") {
+		if !isOp(name) && !helper[f] {
 			continue
 		}
 		if len(f.Params) == 0 || !geomTypeNames[namedName(f.Params[0].Type())] {
